@@ -69,12 +69,15 @@ OBLIGATIONS += [
     inode(3, "65,66,68", 16, 4, ["quick", "thorough"]),
     inode(10, "65,66,68", 16, 5, ["quick", "thorough"]),
     inode(4, "64", 16, 2, ["quick", "thorough"]),
-    inode(6, "64", 16, 2, ["thorough"]),
+    inode(6, "64", 16, 2, ["quick", "thorough"]),
     inode(11, "64", 16, 2, ["quick", "thorough"]),
-    inode(13, "64", 16, 2, ["thorough"]),
+    inode(13, "64", 16, 2, ["quick", "thorough"]),
     inode(15, "64", 16, 2, ["quick", "thorough"]),
-    inode(9, "64,68", 40, 3, ["thorough"], 1200),
-    inode(8, "64,192,320", 24, 5, ["thorough"], 1200),
+    inode(9, "64,68,72", 40, 3, ["quick", "thorough"], 600),
+    dict(inode(8, "64,192,320", 24, 5, ["quick", "thorough"], 600), unwindset={"read_inode_dir_ext.0": 28}),
+    dict(inode(8, "64,192,320", 128, 6, ["thorough"], 900, extra=dict(VP_META_EXTDIR_ENTSIZE_BASE=48, VP_META_NOFILL_ABOVE=40)), name="inode_ext_dir_two_entries_growth"),
+    dict(inode(8, "192", 128, 4, ["quick", "thorough"], 300, extra=dict(VP_META_EXTDIR_ENTSIZE_BASE=112, VP_META_NOFILL_ABOVE=40, VP_NO_UNPACK=1)), name="inode_ext_dir_growth_boundary"),
+    dict(inode(8, "64,192,320", 128, 4, ["thorough"], 600, extra=dict(VP_META_EXTDIR_ENTSIZE_BASE=112, VP_META_NOFILL_ABOVE=40)), name="inode_ext_dir_growth_boundary_unpack"),
 ]
 
 OBLIGATIONS.append(dict(name="readdir_arbitrary_listing", harness="harness/C05_readdir.c", sources=["lib/sqfs/src/readdir.c"], pre_include=["stubs/vp_alloc_sizes.h"],
